@@ -96,12 +96,12 @@ func EdgeNgramFilterConstructor(config map[string]interface{}, cache *registry.C
 	if ok && back {
 		side = BACK
 	}
-	minVal, ok := config["min"].(float64)
+	minVal, ok := configNumber(config["min"])
 	if !ok {
 		return nil, fmt.Errorf("must specify min")
 	}
 	min := int(minVal)
-	maxVal, ok := config["max"].(float64)
+	maxVal, ok := configNumber(config["max"])
 	if !ok {
 		return nil, fmt.Errorf("must specify max")
 	}
@@ -115,4 +115,18 @@ func init() {
 	if err != nil {
 		panic(err)
 	}
+}
+
+// configNumber reads a numeric option that arrives as float64 from JSON (a
+// reopened index) or as an int from a mapping built through the Go API.
+func configNumber(v interface{}) (float64, bool) {
+	switch n := v.(type) {
+	case float64:
+		return n, true
+	case int:
+		return float64(n), true
+	case int64:
+		return float64(n), true
+	}
+	return 0, false
 }
